@@ -58,7 +58,7 @@ INFO_LETS = {
 
 compute_contracted_info = Contract(
     target="cotengra.pathfinders.path_simulated_annealing:compute_contracted_info",
-    props=["C04", "C18", "C02"],
+    props=["C04", "C18", "C02", "C03"],
     params={"legsa": LegsT, "legsb": LegsT, "appearances": LegsT, "size_dict": SizeT},
     lets=INFO_LETS,
     hints={"legsab": LegsT},
